@@ -231,14 +231,24 @@ class C04(Check):
             from vlib import spaces
             return [{"src": spaces.opcode_prefix_source(spec[1]), "step_limit": 500000}], ("ok", opc_expected(spec[1]), None)
         stmts = scenario(*spec) if spec[0] != "multi" else multi_scenario(spec[1], CLAUSE_SETS[spec[2]], *spec[3:])
-        src, _ = L.render(stmts)
         try:
             exp = L.Interp().run(stmts)[:3]
         except L.Unsupported as u:
             exp = ("unsupported", str(u), None)
-        return [{"src": src, "step_limit": 500000}], exp
+        # the same AST printed plainly and with (run-time erased) type annotations, generic parameters and member declarations
+        return [{"src": L.render(stmts, lay)[0], "step_limit": 500000} for lay in ("min", "typed")], exp
 
     def judge(self, spec, exp, rs):
+        last = None
+        for k, r in enumerate(rs):
+            last = self.judge1(spec, exp, [r])
+            if not last.ok:
+                if k == 1:
+                    last.reason = "[typed layout] " + last.reason
+                return last
+        return last
+
+    def judge1(self, spec, exp, rs):
         r = rs[0]
         cls, out, ecls = exp
         if cls == "unsupported":
